@@ -1,9 +1,10 @@
 """C17 - rewrites documented as identities preserve sort and value."""
 import itertools
+import os
 
 from hypothesis import strategies as st
 
-from vlib import env, gen_typed, guard, model, runner, smteval
+from vlib import env, gen_typed, guard, model, refreader, runner, smteval
 
 PROPERTY = 'C17'
 LEVEL = 'exploration'
@@ -20,7 +21,7 @@ RULE = ('For exactly the mutators the property lists, Hypothesis-drawn well-sort
         'forms only where the statement says so.  BVMergeReducedBW is compared at '
         'script level on its own instance family; FPShortSort exhaustively over the '
         '(eb, sb) grid.  Shadowing lets are a separate class (own bucket).  '
-        'Non-trivial: an instance with >= 1 free variable for which a proposal was '
+        'Real runs (ddmin, hierarchical, hybrid; -j 1 and 2) with the arity-independent identity rewrites plus two constant-changing rewrites enabled, on scripts whose definitions are applied in the assertions, against a command that accepts two thirds of all candidates: every accepted step made by an identity rewrite leaves sort and value of every asserted formula unchanged (8 assignments; keys run/...).  Non-trivial: an instance with >= 1 free variable for which a proposal was '
         'produced; distinct = (mutator, original term).')
 ASSUMPTIONS = [
     'relative to the evaluator (validated against z3 by tools/validate_eval.py); Int quantifiers are interpreted over {-2..2} (the listed identities are domain-independent)',
@@ -322,6 +323,184 @@ def check_fp_short(dd, acc):
     acc.add_extra('fp_grid_cells', n)
 
 
+# ---------------------------------------------------------------- real runs
+
+# identities whatever the arity of the term they are offered (the documented-binary ones and
+# ArithmeticNegateRelation are judged in-process only, on their documented shapes)
+RUN_IDENTITIES = ['InlineDefinedFuns', 'LetSubstitution', 'BVNormalizeConstants', 'BVEvalExtend', 'BVExtractConstants',
+                  'BVExtractZeroExtend', 'BvMergeExtend', 'BVDoubleNegation', 'BoolDoubleNegation', 'BoolDeMorgan',
+                  'RemoveDatatypeIdentity']
+# rewrites that are NOT identities: they make the run change definitions and declarations
+RUN_OTHERS = ['ArithmeticSimplifyConstant', 'BVSimplifyConstants']
+
+
+def script_contexts(cmds):
+    """Evaluation contexts for a whole script given as nested lists (raises EvalError for
+    anything outside the fragment)."""
+    dts, consts, funs, defs = {}, {}, {}, {}
+    for c in cmds:
+        if not isinstance(c, list) or not c or not isinstance(c[0], str):
+            continue
+        if c[0] == 'declare-datatype' and len(c) == 3:
+            dts[c[1]] = c[2]
+        elif c[0] == 'declare-datatypes' and len(c) == 3:
+            for (n, _), body in zip(c[1], c[2]):
+                dts[n] = body
+    names = set(dts)
+
+    def so(p):
+        r = gen_typed.sort_from_plain(p, names)
+        if r is None:
+            raise smteval.EvalError(f'sort {p!r}')
+        return r
+
+    dts = {k: [(x[0], [(f[0], so(f[1])) for f in x[1:]]) for x in v] for k, v in dts.items()}
+    for c in cmds:
+        if not isinstance(c, list) or not c or not isinstance(c[0], str):
+            continue
+        if c[0] == 'declare-const' and len(c) == 3:
+            consts[c[1]] = so(c[2])
+        elif c[0] == 'declare-fun' and len(c) == 4:
+            if c[2]:
+                funs[c[1]] = ([so(x) for x in c[2]], so(c[3]))
+            else:
+                consts[c[1]] = so(c[3])
+        elif c[0] == 'define-fun' and len(c) == 5:
+            defs[c[1]] = ([(f[0], so(f[1])) for f in c[2]], so(c[3]), c[4])
+        elif c[0] in ('declare-const', 'declare-fun', 'define-fun', 'define-fun-rec', 'define-funs-rec', 'define-sort',
+                      'declare-sort'):
+            raise smteval.EvalError('declaration outside the fragment: ' + model.render(c)[:80])
+    base = smteval.Ctx(dts=dts)
+    out = []
+    for a in range(8):
+        cs = {n: (s_, smteval.default_value(s_, base, smteval.hashval(n, a))) for n, s_ in consts.items()}
+        out.append(smteval.Ctx(consts=cs, funs=funs, defs=defs, dts=dts, salt=a))
+    return out
+
+
+def script_values(cmds):
+    """[(sort, value) of every asserted formula] per assignment."""
+    res = []
+    for ctx in script_contexts(cmds):
+        res.append([smteval.ev(c[1], ctx, {}) for c in cmds if isinstance(c, list) and len(c) == 2 and c[0] == 'assert'])
+    return res
+
+
+@st.composite
+def def_script(draw):
+    """Definitions whose bodies hold constants and extension terms (so that accepted steps
+    change the definitions), applied several times in the assertions."""
+    w = draw(st.sampled_from([4, 8]))
+    bvs = ['_', 'BitVec', str(w)]
+
+    def bvc():
+        v = draw(st.integers(0, (1 << w) - 1))
+        return draw(st.sampled_from(['#b' + format(v, f'0{w}b'), '#x' + format(v, f'0{w // 4}x'), ['_', f'bv{v}', str(w)]]))
+
+    def num():
+        return str(draw(st.integers(0, 40)))
+
+    k = draw(st.integers(1, w - 1))
+    small = '#b' + format(draw(st.integers(0, (1 << (w - k)) - 1)), f'0{w - k}b')
+    fbody = draw(st.sampled_from([
+        ['bvadd', 'u', bvc()], ['bvand', 'u', [['_', 'zero_extend', str(k)], small]],
+        ['bvor', ['bvnot', ['bvnot', 'u']], bvc()], ['ite', ['=', 'u', bvc()], bvc(), 'u'],
+        ['bvxor', [['_', 'sign_extend', str(k)], small], 'u']]))
+    gbody = draw(st.sampled_from([
+        ['>', ['+', 'n', num()], 'x'], ['not', ['not', ['<', 'n', num()]]], ['and', ['>=', 'n', num()], 'p'],
+        ['=', ['*', 'n', num()], 'y'], ['not', ['and', ['<', 'n', num()], ['not', 'p']]]]))
+    cmds = [['set-logic', 'ALL'], ['declare-const', 'a', bvs], ['declare-const', 'b', bvs], ['declare-const', 'x', 'Int'],
+            ['declare-const', 'y', 'Int'], ['declare-const', 'p', 'Bool'],
+            ['define-fun', 'f', [['u', bvs]], bvs, fbody], ['define-fun', 'g', [['n', 'Int']], 'Bool', gbody],
+            ['define-fun', 'h', [], 'Int', ['+', 'x', num()]]]
+    pool = [['=', ['f', 'a'], ['f', 'b']], ['g', 'x'], ['g', ['+', 'y', num()]], ['not', ['g', 'h']],
+            ['=', ['f', ['f', 'a']], bvc()], ['not', ['not', ['g', num()]]], ['=', ['f', bvc()], 'b'],
+            ['let', [['t', ['f', 'a']]], ['=', 't', ['bvnot', 't']]]]
+    for t in draw(st.lists(st.sampled_from(pool), min_size=3, max_size=5)):
+        cmds.append(['assert', t])
+    cmds.append(['check-sat'])
+    return cmds
+
+
+@st.composite
+def run_cases(draw):
+    from vlib import gen_run
+    if draw(st.integers(0, 3)) > 0:
+        text = model.render_list(draw(def_script())) + '\n'
+    else:
+        s = draw(gen_typed.script(dict(gen_typed.EVAL_PROFILE, max_defs=3, max_asserts=3, depth=2)))
+        text = model.render_list(s.cmds) + '\n'
+    # the command accepts two thirds of all candidates, pseudo-randomly by their tokens
+    from vlib import spec as vspec
+    salt = draw(st.integers(0, 10**6))
+    k0 = vspec.mix(vspec.token_hash(vspec.tokens_of_text(text)), salt) % 3
+    spec = dict(pred=['hash', salt, 3, [k0, (k0 + 1) % 3]], T=[0, 'sat\n', ''], F=[1, 'unsat\n', ''], noise=None, delay=None,
+                fault=None, directive=False)
+    return dict(kind='run', text=text, spec=spec, strategy=draw(st.sampled_from(['ddmin', 'hierarchical', 'hybrid'])),
+                jobs=draw(st.sampled_from([1, 1, 2])))
+
+
+def run_argv(dd):
+    opt = {}
+    for theory, (mod, ms) in dd.mutators.get_all_mutators().items():
+        opt.update(ms)
+    return ['--disable-all'] + ['--' + opt[c] for c in RUN_IDENTITIES + RUN_OTHERS if c in opt]
+
+
+def check_run(dd, case, acc, wd):
+    """A real run with the identity rewrites and a few others enabled: every accepted step that
+    an identity rewrite made leaves the value of every asserted formula unchanged (the tables
+    a mutator consults in a run are those of the input it is asked about)."""
+    from vlib import e2e
+    opts = dict(strategy=case['strategy'], jobs=case['jobs'], timeout=20, extra_argv=run_argv(dd))
+    r = e2e.run_ddsmt(wd, case['text'], case['spec'], opts, mode='launcher',
+                      plan=dict(keep_texts=True, stop_on_repeat=True, max_accepts=120), wall_limit=120)
+    classes = ['run', f'run-{case["strategy"]}']
+    if r.timed_out or r.after is None:
+        acc.skip('run: wall limit or launcher crash')
+        return False, classes
+    texts = [case['text']] + [t for t in r.after.get('writes_text', [])]
+    by = [None] + list(r.after.get('writes_by', []))
+    judged = 0
+    for i in range(1, min(len(texts), len(by))):
+        if by[i] not in RUN_IDENTITIES or texts[i] is None or texts[i - 1] is None:
+            continue
+        try:
+            before = refreader.read(texts[i - 1], keep_comments=False)
+            after_ = refreader.read(texts[i], keep_comments=False)
+            vb = script_values(before)
+        except Exception:  # noqa  (a script that earlier, non-identity steps left outside the fragment)
+            acc.count('run-step-not-evaluable')
+            continue
+        try:
+            va = script_values(after_)
+        except smteval.SortError as e:
+            acc.violation(f'run/{by[i]}/sort', f'accepted step #{i} by {by[i]} in a real run makes the script ill-sorted: {e}; '
+                          f'before={texts[i - 1][:300]!r} after={texts[i][:300]!r}', case)
+            continue
+        except Exception:  # noqa
+            acc.count('run-step-not-evaluable')
+            continue
+        judged += 1
+        acc.count(f'run-step:{by[i]}')
+        if va != vb:
+            acc.violation(f'run/{by[i]}/value', f'accepted step #{i} by {by[i]} in a real run ({case["strategy"]}, -j {case["jobs"]}) '
+                          f'changes the value of an asserted formula; before={texts[i - 1][:400]!r} after={texts[i][:400]!r}', case)
+    acc.add_extra('run_steps_judged', judged)
+    return judged >= 1, classes
+
+
+def runs(ctx, acc, dd):
+    n = [0]
+
+    def body(case):
+        n[0] += 1
+        nt, classes = check_run(dd, case, acc, os.path.join(ctx.workdir, f'run{n[0] % 3}'))
+        acc.case(case, nontrivial=False, classes=classes)
+
+    runner.hyp_run(ctx, run_cases(), body, ctx.share(320 if ctx.quick else 8000), salt=41)
+
+
 def shard(ctx, acc):
     dd = env.load()
     env.set_options(dd, ['in.smt2', 'out.smt2', '/bin/true'])
@@ -357,6 +536,7 @@ def shard(ctx, acc):
         acc.case(case, nontrivial=False, classes=['merge-instance'])
 
     runner.hyp_run(ctx, merge_case(), body2, ctx.share(300 if ctx.quick else 3000), salt=4)
+    runs(ctx, acc, dd)
 
 
 def finish(acc, tier):
@@ -375,6 +555,8 @@ def replay(case, acc, ctx):
     env.set_options(dd, ['in.smt2', 'out.smt2', '/bin/true'])
     if case.get('kind') == 'merge':
         check_merge(dd, case, acc)
+    elif case.get('kind') == 'run':
+        check_run(dd, case, acc, os.path.join(ctx.workdir, 'replay'))
     elif case.get('kind') == 'fpshort':
         check_fp_short(dd, acc)
     else:
